@@ -230,18 +230,37 @@ def histNames (ops : List HOp) (h : Bytes → Bytes) : List Name :=
     | .look id => [Name.A id]
     | .trim => []).eraseDups
 
+/-- at most `fuel` steps of process `i`, stopping when it is `done` -/
+def stepsUntilDone (h : Bytes → Bytes) (cs : Nat) (i : Nat) : Nat → TSys → TSys
+  | 0, s => s
+  | f + 1, s =>
+    match s.sys.procs[i]? with
+    | some p => if p.pc = .done ∨ p.pc = .dead then s else stepsUntilDone h cs i f (stepT h cs s (.base (.step i)))
+    | none => s
+
+/-- the same state with the function closures of `fs` and `mt` rebuilt from the (finitely many)
+names of the history — keeps look-ups cheap; extensionally the identity on those names -/
+def flatten (names : List Name) (s : TSys) : TSys :=
+  let fl := names.filterMap fun n => (s.sys.fs n).map fun c => (n, c)
+  let ml := names.map fun n => (n, s.mt n)
+  { s with sys := { s.sys with fs := fsOf fl },
+           mt := fun n => match ml.find? (·.1 = n) with | some (_, t) => t | none => 0 }
+
 def runHist (cs : Nat) (ops : List HOp) : String :=
   let memo := (ops.filterMap fun | .put _ data _ => some data | _ => none).eraseDups.map fun d => (d, sha256 d)
   let h := memoList memo
   let names := histNames ops h
   let s0 : TSys := { sys := { fs := FS.empty, procs := [] }, mt := fun _ => 0, now := 2000000000, trimmers := [] }
   let (_, outs) := ops.foldl (init := (s0, ([] : List String))) fun (s, outs) op =>
+    let s := flatten names s
     match op with
     | .put id data ts =>
       let i := s.sys.procs.length
-      -- the caller then takes `OutputFile(out)` (lintcmd/runner.writeCacheReader): `used` on the data file
-      let evs : List EvT := (.base (.spawn id data ts) :: List.replicate (putBound data.length) (.base (.step i))) ++ [.used (.D (h data))]
-      let s' := runT h cs s evs
+      -- `putBound` steps of the new process (further steps of a `done` process change nothing, so the
+      -- loop stops there); the caller then takes `OutputFile(out)` (lintcmd/runner.writeCacheReader):
+      -- `used` on the data file
+      let s1 := stepsUntilDone h cs i (putBound data.length) (stepT h cs s (.base (.spawn id data ts)))
+      let s' := stepT h cs s1 (.used (.D (h data)))
       let pc := match s'.sys.procs[i]? with | some p => showPC p.pc | none => "rejected"
       let rd := match readFile s'.sys.fs (h data) with
         | none => "openerr"
